@@ -93,6 +93,12 @@ type caseSpec struct {
 	// "republished": the same path was published and closed before, in the same
 	// directory. Sequence numbers restart at 1 either way.
 	Earlier string `json:"earlier_life,omitempty"`
+	// Twin: the same frames also run in memory mode; every segment served must
+	// equal the memory-mode one byte for byte.
+	Twin bool `json:"memory_twin,omitempty"`
+	// Spin: a second goroutine asks for the next sequence number in a tight loop
+	// and reads each segment the moment it resolves, while this one writes.
+	Spin    bool   `json:"spinning_reader,omitempty"`
 	Path    string `json:"path"`
 	SPS     string `json:"sps_hex"`
 	PPS     string `json:"pps_hex"`
@@ -451,6 +457,7 @@ type engine struct {
 	allPTS   []int64        // stamp of every written frame, by arrival
 	cur      opener         // the write in progress
 	lastSeq  int
+	spin     *spinner
 	closed   bool
 
 	readers []*keptReader
@@ -504,6 +511,9 @@ func run(c *caseSpec, work string) (res *result, f *failure) {
 		am := &codec.AudioMeta{Codec: "AAC", Sps: mustHex(c.ASC), SampleRate: c.Rate}
 		e.vp = mpegts.NewH264Packetizer(vm, sg)
 		e.ap = mpegts.NewAacPacketizer(am, sg)
+		if c.Spin {
+			e.startSpinner()
+		}
 	}
 	for i := range c.Ops {
 		o := &c.Ops[i]
@@ -553,10 +563,80 @@ func run(c *caseSpec, work string) (res *result, f *failure) {
 	}
 	res.segments = e.lastSeq
 	res.segs = e.segs
-	if c.Disk && c.Earlier != "" && !c.Stream {
+	if f := e.judgeSpinner(); f != nil {
+		return res, f
+	}
+	if (c.Disk && c.Earlier != "" || c.Twin) && !c.Stream {
 		return res, e.compareWithMemoryTwin(work)
 	}
 	return res, nil
+}
+
+// ---------------------------------------------------------------- spinning reader
+
+type spinRecord struct {
+	seq   int
+	size  int
+	bytes []byte
+	err   error
+}
+
+type spinner struct {
+	stop atomic.Bool
+	done chan struct{}
+	recs []spinRecord // owned by the goroutine until done is closed
+}
+
+// startSpinner: a reader that wants every segment as early as it can be had.
+func (e *engine) startSpinner() {
+	sp := &spinner{done: make(chan struct{})}
+	e.spin = sp
+	pl := e.pl
+	go func() {
+		defer close(sp.done)
+		next := 1
+		for !sp.stop.Load() {
+			r, size, err := pl.Segment(next)
+			if err != nil {
+				runtime.Gosched()
+				continue
+			}
+			b, rerr := readAllClose(r)
+			sp.recs = append(sp.recs, spinRecord{seq: next, size: size, bytes: b, err: rerr})
+			next++
+		}
+	}()
+}
+
+func (e *engine) stopSpinner() {
+	if e.spin != nil && !e.spin.stop.Swap(true) {
+		<-e.spin.done
+	}
+}
+
+// judgeSpinner: what the spinning reader got the moment a segment resolved is
+// the transport stream of that sequence number, all of it.
+func (e *engine) judgeSpinner() *failure {
+	if e.spin == nil {
+		return nil
+	}
+	e.stopSpinner()
+	<-e.spin.done
+	for _, rec := range e.spin.recs {
+		want, ok := e.segs[rec.seq]
+		switch {
+		case rec.err != nil:
+			return fail("segment-read", "spinning reader, segment %d: %v", rec.seq, rec.err)
+		case !ok:
+			return fail("segment-unknown", "spinning reader got a segment %d (%d bytes) the writer never saw complete", rec.seq, len(rec.bytes))
+		case rec.size != len(rec.bytes):
+			return fail("segment-size", "spinning reader: Segment(%d) announced %d bytes the moment it resolved, the reader delivered %d (the segment has %d)", rec.seq, rec.size, len(rec.bytes), len(want))
+		case !bytes.Equal(rec.bytes, want):
+			return fail("segment-bytes", "spinning reader: segment %d read the moment it resolved has %d bytes, the transport stream produced for it %d; first difference at %d", rec.seq, len(rec.bytes), len(want), firstDiff(rec.bytes, want))
+		}
+	}
+	e.res.class(fmt.Sprintf("spinning-reader:segments-caught=%s", bucket(len(e.spin.recs))))
+	return nil
 }
 
 // earlierLife gives the HLS directory a history: the same path is published
@@ -636,7 +716,7 @@ func (e *engine) earlierLife() *failure {
 // and no history exist.
 func (e *engine) compareWithMemoryTwin(work string) *failure {
 	twin := *e.c
-	twin.Disk, twin.Earlier, twin.Ops = false, "", nil
+	twin.Disk, twin.Earlier, twin.Twin, twin.Spin, twin.Ops = false, "", false, false, nil
 	for i, o := range e.c.Ops {
 		if o.K == "v" || o.K == "a" {
 			twin.Ops = append(twin.Ops, o)
@@ -665,6 +745,7 @@ func (e *engine) compareWithMemoryTwin(work string) *failure {
 }
 
 func (e *engine) cleanup() {
+	e.stopSpinner()
 	for _, r := range e.readers {
 		if c, ok := r.r.(io.Closer); ok {
 			c.Close()
@@ -1346,6 +1427,7 @@ func (e *engine) close() *failure {
 		}
 		e.res.class("accounting:complete-after-flush")
 	}
+	e.stopSpinner()
 	e.closed = true
 	if e.st != nil {
 		media.Unregist(e.st)
